@@ -10,7 +10,11 @@ Import ListNotations.
 
 Inductive ev :=
 | E (l : label)
-| Snap (lks : list (bool * bool)) (recp : bool) (blocked : list nat).
+| Snap (lks : list (bool * bool)) (recp : bool) (blocked : list nat)
+(* summary of a free-running (un-gated) stress run: successful acquisitions, Unlock calls that
+   returned, and the largest number of goroutines that were between "acquire returned" and
+   "Unlock called" at the same instant (critical-section counter kept by the harness) *)
+| Free (acq rel maxin : N).
 
 Record case := mkCase {
   c_id : N;
@@ -41,12 +45,20 @@ Definition snap_ok (nt : nat) (s : state) (lks : list (bool * bool)) (recp : boo
   && Bool.eqb (match rec s with Some _ => true | None => false end) recp
   && list_nat_eqb (filter (blockedb s) (seq 0 nt)) bl.
 
+(** the summary of a free-running stress run is in order: never two goroutines inside the
+    critical section, every acquisition released.  This is a predicate over what the harness
+    counted, not a replay on the model: the stream explores schedules the gate cannot produce
+    (real parallelism inside the storage), it supports the correspondence and is not part of
+    any theorem. *)
+Definition free_ok (acq rel maxin : N) : bool := N.leb maxin 1 && N.eqb acq rel.
+
 (** result: final state, or the index of the first event the model rejects *)
 Fixpoint replay (nt : nat) (s : state) (evs : list ev) (i : nat) : state + nat :=
   match evs with
   | [] => inl s
   | E l :: r => match step s l with Some s' => replay nt s' r (S i) | None => inr i end
   | Snap lks recp bl :: r => if snap_ok nt s lks recp bl then replay nt s r (S i) else inr i
+  | Free a rl m :: r => if free_ok a rl m then replay nt s r (S i) else inr i
   end.
 
 Definition pc_idle (p : pc) : bool := match p with Idle => true | _ => false end.
@@ -64,6 +76,7 @@ Fixpoint max_holders (nl : nat) (s : state) (evs : list ev) (m : nat) : nat :=
   | [] => m'
   | E l :: r => match step s l with Some s' => max_holders nl s' r m' | None => m' end
   | Snap _ _ _ :: r => max_holders nl s r m'
+  | Free _ _ _ :: r => max_holders nl s r m'
   end.
 
 Definition check_trace (c : case) : bool :=
